@@ -376,6 +376,46 @@ fn wraparound(t: &mut Trace, rng: &mut Rng) -> u64 {
     n
 }
 
+/// error-then-success pairs: every public function is first called with an argument it must reject (or that makes it fail
+/// part-way), then with a valid one on the same thread; the valid answer must be the cold one.  Scratch buffers, partly
+/// filled memos and "in progress" flags that an early return forgets to reset only show after a failed call.
+fn after_errors(t: &mut Trace, rng: &mut Rng) -> u64 {
+    let mut n = 0;
+    for trial in 0..12 {
+        let res = [2, 5, 9, 14, 20, 27][trial % 6];
+        let z = 1.8 * rng.f64() - 0.9;
+        let (lon, lat) = (360.0 * rng.f64() - 180.0, z.asin().to_degrees());
+        let cell = match a5::lonlat_to_cell(LonLat::new(lon, lat), res) { Ok(c) => c, Err(_) => continue };
+        let finer = a5::cell_to_children(cell, Some(res + 1)).map(|v| v[0]).unwrap_or(cell);
+        let bad_id = 0xfc00_0000_0000_0001u64;
+        // (name, failing call, valid call) -- both as closures returning a printable result
+        type F = Box<dyn Fn() -> String + Send + Sync>;
+        let cases: Vec<(&str, F, F)> = vec![
+            ("uncompact", Box::new(move || format!("{:x?}", a5::uncompact(&[cell, finer, cell], res))), Box::new(move || format!("{:x?}", a5::uncompact(&[cell, cell], res + 1)))),
+            ("uncompact (bad id)", Box::new(move || format!("{:x?}", a5::uncompact(&[cell, bad_id], res))), Box::new(move || format!("{:x?}", a5::uncompact(&[finer], res + 2)))),
+            ("compact", Box::new(move || format!("{:x?}", a5::compact(&[cell, bad_id]))), Box::new(move || format!("{:x?}", a5::compact(&a5::cell_to_children(cell, Some(res + 1)).unwrap_or_default())))),
+            ("cell_to_children", Box::new(move || format!("{:x?}", a5::cell_to_children(cell, Some(res - 1)))), Box::new(move || format!("{:x?}", a5::cell_to_children(cell, Some(res + 1))))),
+            ("cell_to_parent", Box::new(move || format!("{:x?}", a5::cell_to_parent(cell, Some(res + 1)))), Box::new(move || format!("{:x?}", a5::cell_to_parent(cell, Some(res - 1))))),
+            ("lonlat_to_cell", Box::new(move || format!("{:x?}", a5::lonlat_to_cell(LonLat::new(lon, lat), 31))), Box::new(move || format!("{:x?}", a5::lonlat_to_cell(LonLat::new(lon, lat), res)))),
+            ("cell_to_boundary", Box::new(move || format!("{:?}", a5::cell_to_boundary(bad_id, None).map(|b| b.len()))), Box::new(move || format!("{:?}", a5::cell_to_boundary(cell, None).map(|b| b.iter().map(|q| (q.longitude().to_bits(), q.latitude().to_bits())).collect::<Vec<_>>())))),
+            ("cell_to_lonlat", Box::new(move || format!("{:?}", a5::cell_to_lonlat(bad_id).map(|q| q.longitude().to_bits()))), Box::new(move || format!("{:?}", a5::cell_to_lonlat(cell).map(|q| (q.longitude().to_bits(), q.latitude().to_bits()))))),
+            ("hex_to_u64", Box::new(|| format!("{:x?}", a5::hex_to_u64("zz"))), Box::new(move || format!("{:x?}", a5::hex_to_u64(&a5::u64_to_hex(cell))))),
+        ];
+        for (name, fail, ok) in cases {
+            let ok = std::sync::Arc::new(ok);
+            let ok2 = ok.clone();
+            let cold = in_fresh_thread(move || ok2());
+            let ok3 = ok.clone();
+            let (failed, after) = in_fresh_thread(move || { let f1 = fail(); let f2 = fail(); let _ = f2; (f1, ok3()) });
+            t.emit(json!({"op": "purity", "call": format!("{} valid call at res {} right after two failing calls of the same function ({})", name, res, failed.chars().take(60).collect::<String>()),
+                          "results": [fnv(&cold), fnv(&after)], "contexts": ["cold thread", "after failing calls"], "cold_value": cold.chars().take(120).collect::<String>()}));
+            n += 1;
+        }
+        t.cut();
+    }
+    n
+}
+
 /// saturation histories: one thread is driven until EVERY memo slot the hooks can see is filled (30 face triangles, 240
 /// spherical triangles: all faces, all sectors, reflected and not -- boundaries of the cells that straddle the face edges
 /// fill the reflected ones), then a catalogue of calls is answered on that saturated thread and compared with fresh
@@ -582,10 +622,11 @@ pub fn gen_c13(tier: &str, seed: u64, out: &str, mc: Option<&str>) -> Value {
     let n_wrap = wraparound(&mut t, &mut rng);
     let n_track = tracks(&mut t, tier, &mut rng);
     let (n_sat, sat_filled) = saturation(&mut t, tier, &mut rng);
+    let n_aferr = after_errors(&mut t, &mut rng);
     n_ctx += 3 * n_struct_calls;
     t.finish();
     json!({"files": t.files, "events": t.events, "key_pairs": n_pairs, "histories": n_hist, "structured_cell_pairs": n_struct_pairs,
-           "structured_pair_calls": n_struct_calls, "wraparound_scenarios": n_wrap, "track_events": n_track, "saturation_events": n_sat, "saturated_thread_memo_slots_filled_of_270": sat_filled, "history_steps": n_steps, "public_calls": n_pure,
+           "structured_pair_calls": n_struct_calls, "wraparound_scenarios": n_wrap, "track_events": n_track, "saturation_events": n_sat, "after_error_events": n_aferr, "saturated_thread_memo_slots_filled_of_270": sat_filled, "history_steps": n_steps, "public_calls": n_pure,
            "public_call_contexts": n_ctx, "cold_processes": n_proc,
            "samples": [pair_event(keys[3], keys[123], 0, 1, &cold), json!({"call": names[17], "contexts": per_call[17].len()})]})
 }
